@@ -230,7 +230,10 @@ def run(chk, repo: Repo):
     chk.rule("C11-R2", "every _condition returns a fresh object (copy / constructor / call on a fresh local) on every path", floor=5)
     chk.rule("C11-R3", "JointDistribution: list copied, every factor unconditionally replaced by a conditioned copy, then reduced; "
                        "_add_constants_to_density only receives fresh objects", floor=5)
-    chk.rule("C11-R4", "conditioned copies keep the name of their original (every _condition below Density.name copies through _make_copy)", floor=3)
+    chk.rule("C11-R4", "conditioned copies keep the name of their original (every _condition below Density.name copies through _make_copy); the back-reference "
+                       "`_original_density` is read-only: no function stores an attribute on an object it reached through it (renaming a conditioned copy must "
+                       "not rename the density it was made from)", floor=3)
+    _r4_backref_readonly(chk, repo)
     chk.rule("C11-R5", "Gibbs samplers are constructed on target() and re-condition that private copy", floor=4)
     _r1(chk, repo)
     _r2(chk, repo)
@@ -435,6 +438,66 @@ def _r2(chk, repo):
         chk.add("C11-R2", inst, not problems, site(repo, fn), "all returns are fresh objects", "; ".join(problems), fn)
     if n < 5:
         raise AnchorError(f"{n} concrete _condition definitions found, 5 confirmed by hand")
+
+
+_BACKREF_CONTROL = """
+def rename(self, value):
+    d = self.distribution
+    while d._is_copy:
+        d = d._original_density
+    d.name = value
+def fine(self, value):
+    d = self.distribution
+    d.name = value
+    return self._original_density.name
+"""
+
+
+def _backref_writes(fn):
+    """attribute stores / setattr in fn whose receiver can be an object reached through `_original_density` (any reaching definition, loops included)"""
+    from ..flow import Expander
+    ex = Expander(fn)
+    out = []
+    for n in ex.cfg.nodes:
+        a = n.ast
+        recv = []
+        if n.kind == "stmt" and isinstance(a, (ast.Assign, ast.AugAssign)):
+            for t in (a.targets if isinstance(a, ast.Assign) else [a.target]):
+                for x in ast.walk(t):
+                    if isinstance(x, ast.Attribute) and isinstance(x.ctx, ast.Store):
+                        recv.append(x.value)
+        if n.kind == "stmt" and isinstance(a, ast.Expr) and isinstance(a.value, ast.Call) and call_name(a.value) == "setattr" and a.value.args:
+            recv.append(a.value.args[0])
+        for r_ in recv:
+            if any("_original_density" in unparse(alt) for alt in ex.expand_all(r_, n, depth=4)):
+                out.append(a)
+    return out
+
+
+def _r4_backref_readonly(chk, repo):
+    ctl = ast.parse(_BACKREF_CONTROL)
+    hits = {f.name: len(_backref_writes(f)) for f in ctl.body if isinstance(f, ast.FunctionDef)}
+    if hits != {"rename": 1, "fine": 0}:
+        raise AnchorError(f"back-reference lint: positive control failed ({hits})")
+    n, bad = 0, []
+    for pre in ("cuqi/density/", "cuqi/distribution/", "cuqi/likelihood/"):
+        for m in repo.modules.values():
+            if not m.rel.startswith(pre):
+                continue
+            for f in ast.walk(m.tree):
+                if isinstance(f, ast.FunctionDef):
+                    n += 1
+                    for a in _backref_writes(f):
+                        bad.append((m, f, a))
+    for m, f, a in bad:
+        chk.fail("C11-R4", f"{m.rel}:{f.name}/writes-through-_original_density", f"{m.rel}:{getattr(a, 'lineno', f.lineno)}",
+                 f"`{unparse(a)[:70]}` stores an attribute on an object reached through `_original_density`: an operation on a conditioned copy changes the density "
+                 f"it was made from (and every sibling copy that reads its name from there)", a)
+    if not bad:
+        chk.ok("C11-R4", "_original_density/read-only", "", f"{n} functions of the density / distribution / likelihood layers, none writes through the back-reference "
+               f"(positive control fired)")
+    if n < 200:
+        raise AnchorError(f"back-reference lint: only {n} functions scanned (273 on the pinned tree)")
 
 
 # ------------------------------------------------------------------------------------------------ R3
